@@ -279,13 +279,22 @@ def r3(ctx: Ctx) -> None:
         ctx.ob("C01.R3", cf, f"{names[0]} arguments derive from this attempt only", n, not bad,
                "manifests / list / snapshot arguments depend on parameters and locals of this call, not on "
                f"transaction-level state carried across attempts{' (offending: ' + str(sorted(bad)) + ')' if bad else ''}")
-    # snapshot id / sequence number definitions
-    for var, need in (("snapshot_id", "uuid4"), ("sequence_number", "base_metadata")):
-        defs = [n for n in cg.nodes if n.kind == "stmt" and isinstance(n.ast, ast.Assign)
-                and any(isinstance(t, ast.Name) and t.id == var for t in n.ast.targets)]
+    # snapshot id / sequence number definitions - the variables are found by ROLE (what is passed to create_snapshot)
+    cs_calls = ctx.calls(cf, name="create_snapshot")
+    if not cs_calls:
+        raise AnalysisError("create_snapshot call vanished from _commit_file_ops")
+    for kw, need in (("snapshot_id", "uuid4"), ("sequence_number", "last_sequence_number")):
+        a = kwarg(cs_calls[0].ast, kw)
+        if not isinstance(a, ast.Name):
+            ctx.ob("C01.R3", cf, f"{kw} is passed to create_snapshot as a per-attempt local", cs_calls[0], False,
+                   f"create_snapshot({kw}=...) must receive the id stamped into this attempt's manifests", text=kw)
+            continue
+        var = a.id
+        defs = [n for n in cg.nodes if n.kind == "stmt" and isinstance(n.ast, (ast.Assign, ast.AnnAssign))
+                and any(isinstance(t, ast.Name) and t.id == var for t in (n.ast.targets if isinstance(n.ast, ast.Assign) else [n.ast.target]))]
         ok = len(defs) == 1 and need in norm_text(defs[0].ast.value)
-        ctx.ob("C01.R3", cf, f"single definition of {var} per attempt", defs[0] if defs else None, ok,
-               f"{var} is derived once per attempt from {need}", text=var)
+        ctx.ob("C01.R3", cf, f"single definition of {kw} per attempt", defs[0] if defs else None, ok,
+               f"{kw} is derived once per attempt from {need}", text=kw)
 
 
 def r5(ctx: Ctx) -> None:
